@@ -295,7 +295,7 @@ def evaluate(ctx, cases, cfgs):
 
 
 def run(ctx):
-    return evaluate(ctx, gen(ctx), ["dbg"] if ctx.quick else ["dbg", "rel"])
+    return evaluate(ctx, gen(ctx), ["dbg", "isa"] if ctx.quick else ["dbg", "isa", "rel"])
 
 
 def replay(ctx):
